@@ -5,10 +5,14 @@ import (
 	"path/filepath"
 	"sort"
 	"strings"
+	"sync"
 	"time"
 
 	"github.com/form3tech-oss/f1/v2/internal/trigger/ramp"
 	"github.com/form3tech-oss/f1/v2/internal/trigger/staged"
+	"github.com/form3tech-oss/f1/v2/internal/verifhook"
+	"github.com/form3tech-oss/f1/v2/pkg/f1"
+	f1testing "github.com/form3tech-oss/f1/v2/pkg/f1/testing"
 )
 
 // C10 query logs of the REAL staged and ramp calculators on synthetic timestamps.
@@ -142,6 +146,72 @@ func runC10RampPer(c *ctx, unit, per int, s, e, d int, extra int) (tr c10trace) 
 		r := rates.Rate(base.Add(time.Duration(off) * u.d))
 		tr.Ev = append(tr.Ev, [2]int{off, r})
 	}
+	return tr
+}
+
+// runC10CLI: the profile a command line MEANS is the profile that run evaluates - also when it is not the first run on
+// its F1 instance and relies on a flag's default where the earlier run set the flag. Flat profiles (the measured
+// offsets are wall-clock): the evaluations are captured at the trigger's own evaluation point (hook iw.eval).
+func runC10CLI(kind string) (tr c10trace) {
+	tr = c10trace{Kind: kind, Unit: "ms", Ev: [][2]int{}, Dur: -2} // (the total duration is not visible from outside)
+	defer func() {
+		if r := recover(); r != nil {
+			tr.Panicked = true
+			tr.Err = fmt.Sprint(r)
+		}
+	}()
+	var mu sync.Mutex
+	var first time.Time
+	recording := false
+	verifhook.Install(func(point string, _ any, n int64) {
+		if point != "iw.eval" {
+			return
+		}
+		mu.Lock()
+		defer mu.Unlock()
+		if !recording {
+			return
+		}
+		if first.IsZero() {
+			first = time.Now()
+		}
+		tr.Ev = append(tr.Ev, [2]int{int(time.Since(first).Milliseconds()), int(n)})
+	})
+	defer verifhook.Install(nil)
+	scn := func(*f1testing.T) f1testing.RunFn { return func(*f1testing.T) {} }
+	inst := f1.New().WithLogger(discardLogger()).Add("scn", scn)
+	var a1, a2 []string
+	boundary := -1
+	if kind == "staged" {
+		a1 = []string{"run", "staged", "scn", "--stages", "0s:40,100ms:40", "--iterationFrequency", "20ms", "--distribution", "none", "--max-duration", "150ms", "-c", "8"}
+		a2 = []string{"run", "staged", "scn", "--distribution", "none", "--max-duration", "1300ms", "-c", "8"}
+		tr.Stages = [][2]int{{0, 1}, {10000, 1}} // the documented default "0s:1, 10s:1", one evaluation per second
+		tr.Arg = "second run with the default --stages and --iterationFrequency"
+	} else {
+		a1 = []string{"run", "ramp", "scn", "-s", "10/100ms", "-e", "10/100ms", "--ramp-duration", "400ms", "--distribution", "none", "--max-duration", "450ms", "-c", "8"}
+		a2 = []string{"run", "ramp", "scn", "-s", "7/100ms", "-e", "7/100ms", "--distribution", "none", "--max-duration", "1300ms", "-c", "8"}
+		tr.S, tr.E, tr.D = 7, 7, 1000 // the documented default --ramp-duration 1s
+		boundary = 1000
+		tr.Arg = "second run with the default --ramp-duration"
+	}
+	_ = inst.ExecuteWithArgs(a1)
+	mu.Lock()
+	recording = true
+	mu.Unlock()
+	if err := inst.ExecuteWithArgs(a2); err != nil {
+		tr.Err = err.Error()
+	}
+	mu.Lock()
+	recording = false
+	// evaluations within 40 ms of the end of the ramp can fall on either side of it by the wall clock: left out
+	kept := tr.Ev[:0]
+	for _, e := range tr.Ev {
+		if boundary < 0 || e[0] < boundary-40 || e[0] > boundary+40 {
+			kept = append(kept, e)
+		}
+	}
+	tr.Ev = kept
+	mu.Unlock()
 	return tr
 }
 
@@ -280,6 +350,14 @@ func init() {
 				e0 = s0 + 1
 			}
 			w.write(runC10Ramp(c, unit, s0, e0, 1+c.rng.Intn(maxD), 20+c.rng.Intn(40)))
+		}
+		// (5) through the command line, as the second run on an F1 instance
+		for _, kind := range []string{"staged", "ramp"} {
+			if tr := runC10CLI(kind); len(tr.Ev) >= 2 || tr.Panicked {
+				w.write(tr)
+			} else {
+				fmt.Println("c10: command-line row", kind, "inconclusive (fewer than two evaluations seen)")
+			}
 		}
 		fmt.Println("c10 traces:", w.n)
 		return nil
